@@ -25,6 +25,8 @@ pub struct GenCfg {
     pub shared_repos: bool,
     /// Build a single long chain instead of a bushy tree.
     pub chain: bool,
+    /// Probability (percent) that a location uses a dubious host.
+    pub dubious_pct: u64,
 }
 
 impl Default for GenCfg {
@@ -32,6 +34,7 @@ impl Default for GenCfg {
         GenCfg {
             max_tals: 2, max_cas: 8, max_depth: 3, max_objs: 4,
             ta_all_pct: 40, rrdp_pct: 50, shared_repos: true, chain: false,
+            dubious_pct: 0,
         }
     }
 }
@@ -85,6 +88,16 @@ impl<'a> Gen<'a> {
                 host: format!("r{r}.sim.example"),
             });
         }
+        if self.cfg.dubious_pct > 0 {
+            let mut hosts = vec![
+                "localhost", "127.0.0.1", "r9.sim.example:8443", "LocalHost",
+                "192.0.2.99",
+            ];
+            self.rng.shuffle(&mut hosts);
+            for host in hosts.into_iter().take(2) {
+                world.repos.push(RrdpRepoSpec { host: host.into() });
+            }
+        }
         let n_tals = 1 + self.rng.usize(self.cfg.max_tals);
         for t in 0..n_tals {
             self.ta(&mut world, t);
@@ -131,6 +144,13 @@ impl<'a> Gen<'a> {
     }
 
     fn location(&mut self) -> (String, String) {
+        if self.rng.chance(self.cfg.dubious_pct, 100) {
+            let host = *self.rng.pick(&[
+                "localhost", "192.0.2.7", "h9.sim.example:8873", "LOCALHOST",
+                "10.0.0.1:873",
+            ]);
+            return (host.into(), format!("m{}", self.rng.usize(2)))
+        }
         let (hosts, modules) = if self.cfg.shared_repos {
             (2, 2)
         } else {
@@ -145,7 +165,9 @@ impl<'a> Gen<'a> {
     fn ta(&mut self, world: &mut World, t: usize) {
         let idx = world.cas.len();
         let key = self.ca_key();
+        let saved = std::mem::replace(&mut self.cfg.dubious_pct, 0);
         let (host, module) = self.location();
+        self.cfg.dubious_pct = saved;
         let rrdp = self.rng.chance(self.cfg.rrdp_pct, 100).then(|| {
             self.rng.usize(world.repos.len())
         });
